@@ -54,7 +54,7 @@ def convert_value(value):
         return AnyValue(bytes_value=value)
     if isinstance(value, dict):
         return AnyValue(kvlist_value=__value_as_dict(value))
-    if isinstance(value, list):
+    if isinstance(value, (list, tuple)):
         return AnyValue(array_value=__value_as_list(value))
 
     return None
